@@ -33,3 +33,10 @@ Proof. intros HI HF. destruct (run_inv k sched c0 HI HF) as (c' & E & _). congru
    already parked in front of a CAS with a stale ticket at the start (true of every quiescent state) *)
 Definition stale_free (c : config) : Prop :=
   Forall (fun p => match p with PuCas _ _ _ T0 => T0 = tl (sh c) | PoCas _ _ H0 => H0 = hd (sh c) | _ => True end) (ths c).
+
+Theorem observer_results k c : Inv k c ->
+  forall i o z cp, In (i, RObs o z cp) (hist c) -> match o with KLen => 0 <= z <= cp | _ => z = 0 \/ z = 1 end.
+Proof.
+  intros HI i o z cp Hin. pose proof (inv_h _ _ HI) as HH. rewrite Forall_forall in HH.
+  specialize (HH _ Hin). unfold res_ok in HH. cbn [snd] in HH. destruct o; exact HH.
+Qed.
